@@ -1,6 +1,8 @@
 package main
 
 import (
+	"strconv"
+	"regexp"
 	"fmt"
 	"go/token"
 	"go/types"
@@ -241,6 +243,26 @@ func extractPlan(p *Prog) (*scanPlan, error) {
 				return nil, fmt.Errorf("%s: unrecognised argument transform", p.pos(c.Pos()))
 			}
 			at.Transform, at.Suffix = "append", sfx
+		case *ssa.Extract:
+			// before, found := strings.CutSuffix(id, "c") — used under found
+			cut, isCall := t.Tuple.(*ssa.Call)
+			if !isCall || t.Index != 0 || cut.Call.StaticCallee() == nil || cut.Call.StaticCallee().String() != "strings.CutSuffix" || cut.Call.Args[0] != ssa.Value(id) {
+				return nil, fmt.Errorf("%s: unrecognised argument transform", p.pos(c.Pos()))
+			}
+			sfx, ok := constString(cut.Call.Args[1])
+			if !ok {
+				return nil, fmt.Errorf("%s: CutSuffix with a non-constant suffix", p.pos(c.Pos()))
+			}
+			found := false
+			for cf := range fb.facts[c.Block().Index] {
+				if ex, ok := cf.c.(*ssa.Extract); ok && cf.pol && ex.Tuple == ssa.Value(cut) && ex.Index == 1 {
+					found = true
+				}
+			}
+			if !found {
+				return nil, fmt.Errorf("%s: the result of CutSuffix is used without testing that the suffix was there", p.pos(c.Pos()))
+			}
+			at.Transform, at.Suffix, at.NeedSuffix = "strip", sfx, sfx
 		default:
 			return nil, fmt.Errorf("%s: unrecognised argument transform %T", p.pos(c.Pos()), arg)
 		}
@@ -275,6 +297,10 @@ func extractPlan(p *Prog) (*scanPlan, error) {
 		checkFacts := func(blk *ssa.BasicBlock) error {
 			for cf := range fb.facts[blk.Index] {
 				switch g := cf.c.(type) {
+				case *ssa.Extract:
+					if cut, ok := g.Tuple.(*ssa.Call); ok && g.Index == 1 && cut.Call.StaticCallee() != nil && cut.Call.StaticCallee().String() == "strings.CutSuffix" && cut.Call.Args[0] == ssa.Value(id) {
+						continue
+					}
 				case *ssa.Call:
 					callee := g.Call.StaticCallee()
 					if callee != nil && callee.String() == "strings.HasSuffix" && g.Call.Args[0] == ssa.Value(id) {
@@ -369,36 +395,19 @@ func extractPlan(p *Prog) (*scanPlan, error) {
 	}
 	// parser side
 	if pl := p.Func(p.ExpPkg, "(*tokenStream).parseLicense"); pl != nil {
-		fb2 := newBoundsProver(p, sharedEngineLite(p)).forFn(pl)
-		for _, b := range pl.Blocks {
-			for _, in := range b.Instrs {
-				st, ok := in.(*ssa.Store)
-				if !ok {
-					continue
-				}
-				fa, ok := st.Addr.(*ssa.FieldAddr)
-				if !ok || fieldOf(fa).Field != "hasPlus" {
-					continue
-				}
-				if c, ok := st.Val.(*ssa.Const); !ok || c.Value == nil || c.Value.String() != "true" {
-					continue
-				}
-				for cf := range fb2.facts[b.Index] {
-					if call, ok := cf.c.(*ssa.Call); ok && cf.pol && call.Call.StaticCallee() != nil && call.Call.StaticCallee().String() == "strings.HasSuffix" {
-						if s, ok := constString(call.Call.Args[1]); ok {
-							plan.PlusSuffix = s
-						}
-					}
-				}
-			}
+		for _, sfx := range plusSuffixes(p, pl) {
+			plan.PlusSuffix = sfx
 		}
 	}
 	if sf := p.Func(p.ExpPkg, "simplifyLicense"); sf != nil {
 		for _, b := range sf.Blocks {
 			for _, in := range b.Instrs {
-				if call, ok := in.(*ssa.Call); ok && call.Call.StaticCallee() != nil && call.Call.StaticCallee().String() == "strings.HasSuffix" {
-					if s, ok := constString(call.Call.Args[1]); ok {
-						plan.Simplify = s
+				if call, ok := in.(*ssa.Call); ok && call.Call.StaticCallee() != nil {
+					switch call.Call.StaticCallee().String() {
+					case "strings.HasSuffix", "strings.TrimSuffix", "strings.CutSuffix":
+						if s, ok := constString(call.Call.Args[1]); ok {
+							plan.Simplify = s
+						}
 					}
 				}
 			}
@@ -412,6 +421,68 @@ func extractPlan(p *Prog) (*scanPlan, error) {
 		plan.ExceptionRole = c.Val().ExactString()
 	}
 	return plan, nil
+}
+
+// plusSuffixes: the constants c such that a license token whose value ends in c gets hasPlus = true in the
+// node parseLicense builds — either a store of true under the branch fact HasSuffix(value, c), or a
+// store of a boolean whose formula has HasSuffix(value, c) as a disjunct.
+func plusSuffixes(p *Prog, pl *ssa.Function) []string {
+	var out []string
+	fb := newBoundsProver(p, sharedEngineLite(p)).forFn(pl)
+	qz := &quantizer{p: p, elemVar: map[ssa.Value]string{}}
+	sfxRe := regexp.MustCompile(`^strings\.HasSuffix\(.*, ("(?:[^"\\]|\\.)*")\)$`)
+	for _, b := range pl.Blocks {
+		for _, in := range b.Instrs {
+			st, ok := in.(*ssa.Store)
+			if !ok {
+				continue
+			}
+			fa, ok := st.Addr.(*ssa.FieldAddr)
+			if !ok || fieldOf(fa).Field != "hasPlus" {
+				continue
+			}
+			if c, ok := st.Val.(*ssa.Const); ok {
+				if c.Value == nil || c.Value.String() != "true" {
+					continue
+				}
+				for cf := range fb.facts[b.Index] {
+					if call, ok := cf.c.(*ssa.Call); ok && cf.pol && call.Call.StaticCallee() != nil && call.Call.StaticCallee().String() == "strings.HasSuffix" {
+						if s, ok := constString(call.Call.Args[1]); ok {
+							out = append(out, s)
+						}
+					}
+				}
+				continue
+			}
+			f := qz.boolOf(st.Val, map[*ssa.Phi]*qf{})
+			var disj []*qf
+			if f.Op == "or" {
+				var fl func(q *qf)
+				fl = func(q *qf) {
+					if q.Op == "or" {
+						for _, a := range q.Args {
+							fl(a)
+						}
+						return
+					}
+					disj = append(disj, q)
+				}
+				fl(f)
+			} else {
+				disj = []*qf{f}
+			}
+			for _, d := range disj {
+				if d.Op == "atom" {
+					if m := sfxRe.FindStringSubmatch(d.Atom); m != nil {
+						if s, err := strconv.Unquote(m[1]); err == nil {
+							out = append(out, s)
+						}
+					}
+				}
+			}
+		}
+	}
+	return out
 }
 
 // notAfterGuard recognises strings.HasPrefix(buffer[cursor+1:], "c") — used negatively: "the byte
